@@ -267,7 +267,7 @@ def plan_C20(tier, seed):
 def plan_C14(tier, seed):
     life = tlc("c14_lifecycle", "MC_Lifecycle", {"DEV_MutateLoadedDoc": "FALSE", "MaxHist": 3 if tier == "quick" else 4},
                ["Deterministic", "Pure", "Emit"], workers=4)
-    ev = eval_jobs("c14", [("F3", 2), ("F5", 1), ("U1", 1)], "2020") + eval_jobs("c14", [("G2", 2), ("G5", 1)], "d7")
+    ev = eval_jobs("c14", [("F3", 2), ("F5", 1), ("U1", 1), ("DUP", 1)], "2020") + eval_jobs("c14", [("G2", 2), ("G5", 1)], "d7")
     rs = res_jobs("c14", [("R2", 1)])
     lit = [cod_job("c14", "PO", 2, ["OrderRefines"]), cod_job("c14", "RT", 1, ["RoundTripKeepsMeaning"])]
     return dict(
@@ -279,8 +279,9 @@ def plan_C14(tier, seed):
         rule="(a) Lifecycle.tla: all histories of Resolve/Validate/Marshal calls of length 3 (thorough 4) over a draft-07 root, "
              "a 2020-12 root and one remote document shared through a memoising Loader; every call's result must be the "
              "history-independent Expected value and no caller-owned object may change (deep reflective snapshots around every "
-             "call). (b) the universes of the map-heavy evaluator families (F3, F5, U1, G2, G5) and of the Loader family R2 "
-             "replayed with snapshots of schema, Loader documents and instance around every call, each Resolve done twice, "
+             "call). (b) the universes of the map-heavy evaluator families (F3, F5, U1, G2, G5), of documents with two resources under "
+             "one URI (DUP: no prediction, only determinism) and of the Loader family R2 "
+             "replayed with snapshots of schema, Loader documents and instance around every call, each Resolve done eight times, "
              "each Validate three times, Marshal before/after, and the whole replay repeated in 2 (thorough 4) fresh "
              "processes whose digests of verdict vectors and bytes must be identical. (c) Schema LITERALS of the codec families (every "
              "field state; all PropertyOrder lists incl. stale names, built with spare slice capacity): Marshal x4 and Resolve "
@@ -320,11 +321,12 @@ def plan_C10(tier, seed):
     jobs = [tlc("c10_%s" % f, "MC_Total", {"Family": q(f), "K": k}, ["Emit"], workers=6) for f, k in fams]
     # the malformed-reference and fault universes of the resolver, and represented instances
     jobs += res_jobs("c10", [("R2", 1)])
+    jobs += eval_jobs("c10", [("G3", 1)], "d7") + eval_jobs("c10", [("F5", 1), ("DUP", 1)], "2020")
     rep = rep_job("c10", "RV", 1, [], workers=6)
     return dict(
         tlc=jobs + [rep], parallel=4,
         replay=[dict(name="c10_total", family="total", inputs=[j["name"] for j in jobs[:5]]),
-                dict(name="c10_resolver", family="eval", inputs=[jobs[5]["name"]]),
+                dict(name="c10_resolver", family="eval", inputs=[j["name"] for j in jobs[5:]]),
                 dict(name="c10_reps", family="repval", inputs=[rep["name"]])],
         rule="every call runs under recover() and a 30 s deadline in the replay process (a fatal error is attributed to its case "
              "by a second run with a progress file); TK: all JSON token sequences of length <= 4 (thorough 5) over 11 tokens to "
